@@ -110,6 +110,10 @@ class MapModel:
             return Pred(MAY, "explicit-quirk" if explicit_quirk else "explicit", start, length)
         return Pred(ACCEPT, "implicit", start, length)
 
+    def frozen_by_parent(self, parent):
+        """True if this map is already a window of `parent` (adding it again is only the duplicate case)."""
+        return any(it["kind"] == "win" and it.get("child") is self for it in parent.items)
+
     def predict_add_window(self, key, is_map, child, name, addr, sparse):
         """child: the MapModel of the window (None if not a map)."""
         if not is_map:
